@@ -31,7 +31,7 @@ def configs(q):
     one = cd.consts(Obj=('a',), Edges='EdgesFlat', MaxCommit=2, MaxOther=0 if q else 1, MaxAct=3, MaxTail=1,
                     Ops=('add', 'load', 'close', 'own', 'rm', 'free') if q else ('add', 'load', 'close', 'own', 'rm', 'free', 'other'))
     sp = cd.consts(Obj=('a', 'b'), Edges='EdgesFlat', MaxSp=1, MaxCommit=1, MaxAct=4, MaxTail=1,
-                   Ops=('add', 'sp', 'rm') if q else ('add', 'sp', 'rm', 'own', 'load'))
+                   Ops=('add', 'sp', 'rm', 'close') if q else ('add', 'sp', 'rm', 'close', 'own', 'load'))
     return [('new-objects', new), ('committed-objects', pre), ('one-object', one), ('with-savepoint', sp)]
 
 
